@@ -614,3 +614,23 @@ def length_delimited_framing(rep, rule, prog, cg):
         rep.ok(rule, key, 'merges a Buf::take(len) view', b.loc())
     else:
         rep.bad(rule, key, b.loc(), 'merge_length_delimited reads the length prefix but then merges from the whole remaining buffer (calls %s): bytes after the frame (the next frame of a stream) are consumed and merged into this message' % [short(n) for n in names][:6])
+
+
+def bytes_adapter_replaces(rep, rule, prog, cg):
+    """BytesAdapter::replace_with really replaces: the Vec<u8> implementation clears before it appends, the Bytes one assigns
+    (bytes::merge relies on it for "last occurrence wins")"""
+    n = 0
+    for b in prog.bodies.values():
+        if b.crate == 'pilota' and b.name == 'replace_with' and 'BytesAdapter' in (b.impl_trait or b.key):
+            n += 1
+            who = b.impl_self or b.key
+            key = '%s|replace_with for %s' % (rule, short(who))
+            names = [cs.name for cs in b.calls()]
+            assigns = any(st.get('p', {}).get('p') == ['*'] and st['p']['l'] == 1 for bb in b.bbs for st in bb['st'] if 'p' in st)
+            appends = [x for x in names if x in ('put', 'extend', 'extend_from_slice', 'put_slice', 'push')]
+            if assigns or ('clear' in names and names.index('clear') < min([names.index(x) for x in appends] or [10 ** 6])) or 'truncate' in names:
+                rep.ok(rule, key, 'previous content is discarded first', b.loc())
+            else:
+                rep.bad(rule, key, b.loc(), 'BytesAdapter::replace_with for %s appends (%s) without clearing / assigning first: a second occurrence of a singular bytes field is concatenated to the first instead of replacing it' % (short(who), appends or names))
+    if n < 2:
+        rep.anchor_missing(rule, 'BytesAdapter::replace_with impls (found %d)' % n)
